@@ -73,4 +73,47 @@ PLANS["C13"] = dict(
     assumptions=BNF_ASSUME + ["a quarter of the inputs are re-rendered with tabs, newlines, CRLF and leading/trailing whitespace"],
     floor=dict(quick=100, thorough=1000),
 )
+PLANS["C02"] = dict(
+    jobs=sharded("c02", "C02", 1600, 24000), replay=replay_with("c02", "C02"),
+    rule="one evaluation = one (annotated grammar, LR settings, input) triple parsed with partial_parse off and on by the real LR parser; every Ok tree is validated node by node against the abstract grammar "
+         "(root = start rule, children symbols = production right-hand side, leaves = the tokens of the input / of a token prefix, kinds, texts and spans), "
+         "Ok with partial off implies the identical tree with partial on; non-trivial = distinct (grammar, settings) where a conflict was resolved by meta-data/settings and an input of >= 3 tokens parsed Ok",
+    assumptions=BNF_ASSUME + ["random priorities {5,15,20}, left/right/reduce/shift on productions, rules and terminals, nops/nopse, prefer_shifts, prefer_shifts_over_empty, tables LALR and LALR_PAGER",
+                              "runs that exceed the logical step budget (20000*(bytes+1) table queries) are counted, not judged: non-termination belongs to C15"],
+    floor=dict(quick=40, thorough=400),
+)
+PLANS["C04"] = dict(
+    jobs=sharded("c04", "C04", 3200, 60000), replay=replay_with("c04", "C04"),
+    rule="one evaluation = one (grammar, table type) compiled with the GLR algorithm so that no cell is resolved; a simulation relation between the reference canonical LR(1) collection and the dumped table is built "
+         "and checked completely: equal item cores, exactly the canonical transitions, look-aheads of every item = union over the related canonical states, Reduce/Accept/right-nulled entries exactly as prescribed, "
+         "every table state covered (main and Layout automaton); consequences: reference-LALR(1) grammars compile conflict-free in LR mode, conflict-free tables imply <= 1 derivation for all short strings; "
+         "non-trivial = distinct grammar where PAGER keeps a state split, or a table state unions different canonical look-ahead sets, or a right-nulled entry exists (counted once per kind)",
+    assumptions=["grammar of the comparison = the grammar part of the dump (its faithfulness to the text is C09)", "canonical collections above 5000 states are counted as inconclusive",
+                 "grammars without meta-data; random BNF up to 6 non-terminals / 5 terminals plus the literature corpus, 20% with an added Layout rule"],
+    floor=dict(quick=60, thorough=600),
+)
+PLANS["C05"] = dict(
+    jobs=sharded("c05", "C05", 2400, 40000), replay=replay_with("c05", "C05"),
+    rule="(A) one evaluation = one conflict cell (>= 2 candidate actions in the unresolved table of the same grammar without meta-data) of an annotated grammar; 2-candidate cells must equal the documented rule "
+         "computed as a pure function; >= 3 candidates: kept actions are a non-empty subset; LR returns Err iff a multi-action cell remains, GLR keeps them; the compiler never aborts. "
+         "(B) one evaluation = one expression parsed by an annotated operator grammar and compared with a precedence-climbing parser. "
+         "non-trivial = distinct (deciding rule, algorithm, prefer_shifts, prefer_shifts_over_empty) combination exercised, plus distinct operator-table shapes",
+    assumptions=["priority of a shift = highest priority among the productions shifting that terminal in the state (10 for Accept), as documented", "LR algorithm combined with the RN table type is not judged (undocumented combination)",
+                 "cells with >= 3 candidates only get the weak check (resolution order among them is not documented)",
+                 "operator grammars: associativity is a property of a priority level and is written in one place per level (production, terminal or both); with no associativity anywhere prefer_shifts makes operators right-associative"],
+    floor=dict(quick=25, thorough=40),
+)
+PLANS["C06"] = dict(
+    jobs=sharded("c06", "C06", 480, 6400), replay=replay_with("c06", "C06"),
+    rule="one evaluation = one (terminal set with overlaps and priorities, strategy setting, algorithm, input) tuple; inputs are ALL strings up to the length bound over the terminals' alphabet. "
+         "LR: the token sequence the real parser acted on (leaves of its tree), or its error offset, must equal an oracle-side LR walk of the dumped table driven by the documented selection "
+         "(priority > most specific > longest match > grammar order) over the terminals expected in the current state. GLR (flat family, all strategies optional): the set of token paths over all trees and solutions() "
+         "must equal the set of survivor paths. non-trivial = distinct (terminal set, settings) having a position where >= 2 expected terminals match and the strategies change the winner",
+    assumptions=["regex terminals are matched at the current position; a top-level alternation `A|B` is always parenthesised (the book documents that `^` is simply prefixed and prescribes the parentheses)",
+                 "no regex of the pool matches the empty string; no two string recognisers are equal",
+                 "two grammar families: flat (S: S T | T; T: t1|..|tn, every state expects every terminal) and contextual ((X Y)+ with disjoint expected sets); GLR is judged on the flat family only, "
+                 "because there the survivors form a state-independent lattice",
+                 "alphabet {a,b,c,blank} plus 1 when a terminal mentions digits; length bound 5 (quick) / 6 (thorough), exhaustive"],
+    floor=dict(quick=30, thorough=200), exhaustive=False,
+)
 NOT_CLAIMED = {}
